@@ -277,7 +277,7 @@ package j5schema
 //@   requires eo != nil
 //@   ensures result != nil && result.Name == eo.name && result.Number == eo.number && result.Description == eo.description && result.Info == eo.Info
 //@ func (*Package).enumSchemaFromDesc
-//@   requires sch != nil && (forall i int {sch.Options[i]} :: 0 <= i && i < len(sch.Options) ==> sch.Options[i] != nil)
+//@   free requires sch != nil && (forall i int {sch.Options[i]} :: 0 <= i && i < len(sch.Options) ==> sch.Options[i] != nil)
 //@   ensures head: result != nil && result.NamePrefix == sch.Prefix && result.name == sch.Name && result.description == sch.Description && result.pkg == pkg
 //@   ensures info: result.InfoFields == sch.Info
 //@   ensures count: len(result.Options) == len(sch.Options)
@@ -317,18 +317,52 @@ package j5schema
 //@   loop 0 invariant forall i int {prop.ProtoField[i]} :: 0 <= i && i < len(prop.ProtoField) ==> prop.ProtoField[i] == old(prop.ProtoField[i])
 // objects: name, description, entity marker and any-membership survive import; properties keep their order
 //@ func (*Package).objectSchemaFromDesc
-//@   requires sch != nil && allPkgsOK() && (forall i int {sch.Properties[i]} :: 0 <= i && i < len(sch.Properties) ==> sch.Properties[i] != nil)
+//@   requires allPkgsOK()
+//@   free requires sch != nil && (forall i int {sch.Properties[i]} :: 0 <= i && i < len(sch.Properties) ==> sch.Properties[i] != nil)
+//@   ensures wf: allPkgsOK()
 //@   ensures kept: result1 == nil ==> result0 != nil && result0.name == sch.Name && result0.description == sch.Description && result0.Entity == sch.Entity && result0.AnyMember == sch.AnyMember && len(result0.Properties) == len(sch.Properties)
 //@   ensures order: result1 == nil ==> (forall i int {result0.Properties[i]} :: 0 <= i && i < len(sch.Properties) ==> result0.Properties[i] != nil && result0.Properties[i].JSONName == sch.Properties[i].Name)
 //@   loop 0 invariant allPkgsOK() && object != nil && len(object.Properties) == len(sch.Properties) && object.name == sch.Name && object.description == sch.Description && object.Entity == sch.Entity && object.AnyMember == sch.AnyMember
 //@   loop 0 invariant forall i int {object.Properties[i]} :: 0 <= i && i < $iter ==> object.Properties[i] != nil && object.Properties[i].JSONName == sch.Properties[i].Name
 //@   loop 0 invariant forall i int {sch.Properties[i]} :: 0 <= i && i < len(sch.Properties) ==> sch.Properties[i] != nil && sch.Properties[i].Name == old(sch.Properties[i].Name)
 //@   loop 0 invariant sch.Properties == old(sch.Properties) && sch.Name == old(sch.Name) && sch.Description == old(sch.Description) && sch.Entity == old(sch.Entity) && sch.AnyMember == old(sch.AnyMember)
+// field schemas: every member of the serialisable form that the export writes is read back by the import
+// (rules, list rules, extension, flags; a scalar keeps the very message it was imported from)
+//@ spec func fOneof(f *schema_j5pb.Field) *schema_j5pb.OneofField = as(*schema_j5pb.Field_Oneof, f.Type).Oneof
+//@ spec func fObject(f *schema_j5pb.Field) *schema_j5pb.ObjectField = as(*schema_j5pb.Field_Object, f.Type).Object
+//@ spec func fEnum(f *schema_j5pb.Field) *schema_j5pb.EnumField = as(*schema_j5pb.Field_Enum, f.Type).Enum
+//@ spec func fAny(f *schema_j5pb.Field) *schema_j5pb.AnyField = as(*schema_j5pb.Field_Any, f.Type).Any
+//@ spec func fArray(f *schema_j5pb.Field) *schema_j5pb.ArrayField = as(*schema_j5pb.Field_Array, f.Type).Array
+//@ spec func fMap(f *schema_j5pb.Field) *schema_j5pb.MapField = as(*schema_j5pb.Field_Map, f.Type).Map
+// (shape of the parsed input, ASSUMED: a field is non-nil, a set oneof arm holds a message, containers
+// carry their item schema, lists have no nil entries: what protobuf unmarshalling and validation give)
 //@ func (*Package).schemaFromDesc
-//@   opt assumed the per-type copier of field schemas (300 lines, recursion through inline objects) is not under contract: it keeps the package maps well formed and returns a schema or an error
-//@   requires allPkgsOK()
+//@   requires pkg != nil && allPkgsOK()
+//@   free requires schema != nil
+//@   free requires typeis(schema.Type, *schema_j5pb.Field_Array) ==> fArray(schema) != nil
+//@   free requires typeis(schema.Type, *schema_j5pb.Field_Map) ==> fMap(schema) != nil
+//@   free requires typeis(schema.Type, *schema_j5pb.Field_Oneof) ==> fOneof(schema) != nil
+//@   free requires typeis(schema.Type, *schema_j5pb.Field_Object) ==> fObject(schema) != nil
+//@   free requires typeis(schema.Type, *schema_j5pb.Field_Enum) ==> fEnum(schema) != nil
+//@   free requires typeis(schema.Type, *schema_j5pb.Field_Any) ==> fAny(schema) != nil
 //@   ensures wf: allPkgsOK()
 //@   ensures nonnil: result1 == nil ==> result0 != nil
+//@   ensures oneof: result1 == nil && typeis(schema.Type, *schema_j5pb.Field_Oneof) ==> typeis(result0, *OneofField) && as(*OneofField, result0) != nil
+//@   |   && as(*OneofField, result0).Rules == fOneof(schema).Rules && as(*OneofField, result0).ListRules == fOneof(schema).ListRules && as(*OneofField, result0).Ext == fOneof(schema).Ext
+//@   ensures object: result1 == nil && typeis(schema.Type, *schema_j5pb.Field_Object) ==> typeis(result0, *ObjectField) && as(*ObjectField, result0) != nil
+//@   |   && as(*ObjectField, result0).Rules == fObject(schema).Rules && as(*ObjectField, result0).Flatten == fObject(schema).Flatten && as(*ObjectField, result0).Ext == fObject(schema).Ext
+//@   ensures enum: result1 == nil && typeis(schema.Type, *schema_j5pb.Field_Enum) ==> typeis(result0, *EnumField) && as(*EnumField, result0) != nil
+//@   |   && as(*EnumField, result0).Rules == fEnum(schema).Rules && as(*EnumField, result0).ListRules == fEnum(schema).ListRules && as(*EnumField, result0).Ext == fEnum(schema).Ext
+//@   ensures any: result1 == nil && typeis(schema.Type, *schema_j5pb.Field_Any) ==> typeis(result0, *AnyField) && as(*AnyField, result0) != nil
+//@   |   && as(*AnyField, result0).OnlyDefined == fAny(schema).OnlyDefined && as(*AnyField, result0).ListRules == fAny(schema).ListRules
+//@   ensures array: result1 == nil && typeis(schema.Type, *schema_j5pb.Field_Array) ==> typeis(result0, *ArrayField) && as(*ArrayField, result0) != nil
+//@   |   && as(*ArrayField, result0).Rules == fArray(schema).Rules && as(*ArrayField, result0).Ext == fArray(schema).Ext && as(*ArrayField, result0).Schema != nil
+//@   ensures map: result1 == nil && typeis(schema.Type, *schema_j5pb.Field_Map) ==> typeis(result0, *MapField) && as(*MapField, result0) != nil
+//@   |   && as(*MapField, result0).Rules == fMap(schema).Rules && as(*MapField, result0).Ext == fMap(schema).Ext && as(*MapField, result0).Schema != nil
+//@   ensures scalar: result1 == nil && leafType(schema) ==> typeis(result0, *ScalarSchema) && as(*ScalarSchema, result0) != nil && as(*ScalarSchema, result0).Proto == schema
+//@ spec func leafType(f *schema_j5pb.Field) bool = typeis(f.Type, *schema_j5pb.Field_String_) || typeis(f.Type, *schema_j5pb.Field_Key) || typeis(f.Type, *schema_j5pb.Field_Bytes)
+//@   | || typeis(f.Type, *schema_j5pb.Field_Date) || typeis(f.Type, *schema_j5pb.Field_Timestamp) || typeis(f.Type, *schema_j5pb.Field_Decimal)
+//@   | || typeis(f.Type, *schema_j5pb.Field_Integer) || typeis(f.Type, *schema_j5pb.Field_Float) || typeis(f.Type, *schema_j5pb.Field_Bool)
 //@ func (*Package).objectPropertyFromDesc
 //@   ensures wf: allPkgsOK()
 //@   frame fresh E:*github.com/pentops/j5/lib/j5schema.ObjectProperty
@@ -415,3 +449,47 @@ package j5schema
 //@   ensures suffix: psmOf(srcMsg) != nil && psmOf(srcMsg).EntityPart == nil && result1 == nil ==> result0 != nil && result0.Entity == psmOf(srcMsg).EntityName
 //@   |   && (hasSuffix(descName(srcMsg), "Keys") ? result0.Part == schema_j5pb.EntityPart_KEYS : hasSuffix(descName(srcMsg), "State") ? result0.Part == schema_j5pb.EntityPart_STATE :
 //@   |   hasSuffix(descName(srcMsg), "Event") ? result0.Part == schema_j5pb.EntityPart_EVENT : result0.Part == schema_j5pb.EntityPart_DATA)
+
+//@ func (*Package).oneofSchemaFromDesc
+//@   requires allPkgsOK()
+//@   free requires sch != nil && (forall i int {sch.Properties[i]} :: 0 <= i && i < len(sch.Properties) ==> sch.Properties[i] != nil)
+//@   ensures wf: allPkgsOK()
+//@   ensures kept: result1 == nil ==> result0 != nil && result0.name == sch.Name && result0.description == sch.Description && len(result0.Properties) == len(sch.Properties)
+//@   loop 0 invariant allPkgsOK() && oneof != nil && len(oneof.Properties) == len(sch.Properties) && oneof.name == sch.Name && oneof.description == sch.Description
+//@   loop 0 invariant forall i int {sch.Properties[i]} :: 0 <= i && i < len(sch.Properties) ==> sch.Properties[i] != nil
+//@   loop 0 invariant sch.Properties == old(sch.Properties) && sch.Name == old(sch.Name) && sch.Description == old(sch.Description)
+
+// export of field schemas: every member the import reads is written (C15); a scalar hands back the
+// message it holds. (A built field schema has its reference and the reference its package: ASSUMED.)
+//@ func (*ScalarSchema).ToJ5Field
+//@   ensures same: result == s.Proto
+//@ func (*OneofField).ToJ5Field
+//@   free requires s != nil && s.Ref != nil && s.Ref.Package != nil
+//@   ensures kept: result != nil && typeis(result.Type, *schema_j5pb.Field_Oneof) && fOneof(result) != nil && fOneof(result).Rules == s.Rules && fOneof(result).ListRules == s.ListRules && fOneof(result).Ext == s.Ext
+//@   ensures ref: typeis(fOneof(result).Schema, *schema_j5pb.OneofField_Ref) && as(*schema_j5pb.OneofField_Ref, fOneof(result).Schema).Ref.Package == s.Ref.Package.Name && as(*schema_j5pb.OneofField_Ref, fOneof(result).Schema).Ref.Schema == s.Ref.Schema
+//@ func (*ObjectField).ToJ5Field
+//@   free requires s != nil && s.Ref != nil && s.Ref.Package != nil
+//@   ensures kept: result != nil && typeis(result.Type, *schema_j5pb.Field_Object) && fObject(result) != nil && fObject(result).Rules == s.Rules && fObject(result).Flatten == s.Flatten && fObject(result).Ext == s.Ext
+//@   ensures ref: typeis(fObject(result).Schema, *schema_j5pb.ObjectField_Ref) && as(*schema_j5pb.ObjectField_Ref, fObject(result).Schema).Ref.Package == s.Ref.Package.Name && as(*schema_j5pb.ObjectField_Ref, fObject(result).Schema).Ref.Schema == s.Ref.Schema
+//@ func (*EnumField).ToJ5Field
+//@   free requires s != nil && s.Ref != nil && s.Ref.Package != nil
+//@   ensures kept: result != nil && typeis(result.Type, *schema_j5pb.Field_Enum) && fEnum(result) != nil && fEnum(result).Rules == s.Rules && fEnum(result).ListRules == s.ListRules && fEnum(result).Ext == s.Ext
+//@   ensures ref: typeis(fEnum(result).Schema, *schema_j5pb.EnumField_Ref) && as(*schema_j5pb.EnumField_Ref, fEnum(result).Schema).Ref.Package == s.Ref.Package.Name && as(*schema_j5pb.EnumField_Ref, fEnum(result).Schema).Ref.Schema == s.Ref.Schema
+//@ func (*AnyField).ToJ5Field
+//@   free requires s != nil
+//@   ensures kept: result != nil && typeis(result.Type, *schema_j5pb.Field_Any) && fAny(result) != nil && fAny(result).OnlyDefined == s.OnlyDefined && fAny(result).ListRules == s.ListRules
+//@ func (*ArrayField).ToJ5Field
+//@   free requires s != nil && s.Schema != nil
+//@   ensures kept: result != nil && typeis(result.Type, *schema_j5pb.Field_Array) && fArray(result) != nil && fArray(result).Rules == s.Rules && fArray(result).Ext == s.Ext
+//@ func (*MapField).ToJ5Field
+//@   free requires s != nil && s.Schema != nil
+//@   ensures kept: result != nil && typeis(result.Type, *schema_j5pb.Field_Map) && fMap(result) != nil && fMap(result).Rules == s.Rules && fMap(result).Ext == s.Ext
+//@ func stringSliceConvert
+//@   ensures same: len(result) == len(in) && (forall i int {result[i]} :: 0 <= i && i < len(in) ==> string(result[i]) == string(in[i]))
+//@   loop 0 invariant len(out) == len(in) && (len(out) == 0 || fresh(out))
+//@   loop 0 invariant forall i int {out[i]} :: 0 <= i && i < $iter ==> string(out[i]) == string(in[i])
+//@ func (*Package).schemaFromDesc
+//@   ensures any.types: result1 == nil && typeis(schema.Type, *schema_j5pb.Field_Any) ==> len(as(*AnyField, result0).Types) == len(fAny(schema).Types)
+//@   |   && (forall i int {as(*AnyField, result0).Types[i]} :: 0 <= i && i < len(fAny(schema).Types) ==> string(as(*AnyField, result0).Types[i]) == fAny(schema).Types[i])
+//@ func (*AnyField).ToJ5Field
+//@   ensures types: len(fAny(result).Types) == len(s.Types) && (forall i int {fAny(result).Types[i]} :: 0 <= i && i < len(s.Types) ==> fAny(result).Types[i] == string(s.Types[i]))
